@@ -655,7 +655,12 @@ def number_value(lit):
     _k, mant, scale, is_int = lit
     if scale <= 0:
         v = mant * 10 ** (-scale)
-        return v if is_int else float(v)
+        if is_int:
+            return v
+        try:
+            return float(v)
+        except OverflowError:  # beyond the range of doubles: reads as an infinity, like Python's float("1.0e320")
+            return float("inf") if v > 0 else float("-inf")
     return mant / 10**scale
 
 
